@@ -111,7 +111,7 @@ def lexString (s : List Char) : Option (List Char × List Char) :=
         match s with
         | [] => none
         | '"' :: rest => some (acc, rest)
-        | '\\' :: '"' :: rest => go fuel (acc ++ ['\\', '"']) rest
+        | '\\' :: c :: rest => go fuel (acc ++ ['\\', c]) rest   -- a backslash escapes the character after it (repair of finding D45)
         | c :: rest => go fuel (acc ++ [c]) rest
     go (r.length + 1) [] r
   | _ => none
